@@ -63,6 +63,10 @@ func init() {
 	registerExec("hcount", hHcount)
 	registerExec("sum", hSum)
 	registerExec("iter", hIter)
+	registerExec("obsg", hObsg)
+	registerExec("iterget", hIterGet)
+	registerExec("rehash", hRehash)
+	registerExec("iter2", hIter2)
 	registerExec("appv", hAppv)
 	registerExec("blen", hBlen)
 	registerExec("appd", hAppd)
@@ -669,4 +673,162 @@ func hAppv(st *State, a []string) string {
 		return errStr(x.Append(src.vw.(view.BoolView)))
 	}
 	return "err"
+}
+
+// obsg <h>: like obs, but the root is computed with the history's own tree.GetHashFn() instance
+// (a stateful hasher that is re-used for every obsg of this history)
+func hObsg(st *State, a []string) string {
+	hd := st.h(a[0])
+	hf, ok := st.objs["hasher:"].(tree.HashFn)
+	if !ok {
+		hf = tree.GetHashFn()
+		st.objs["hasher:"] = hf
+	}
+	root := hd.vw.HashTreeRoot(hf)
+	bs, err := serializeView(hd.vw)
+	if err != nil {
+		return "ok " + rootHex(root) + " ser-err"
+	}
+	ev, err := extract(hd.t, hd.vw)
+	if err != nil {
+		return "ok " + rootHex(root) + " " + hexs(bs) + " extract-err"
+	}
+	return fmt.Sprintf("ok %s %s %s", rootHex(root), hexs(bs), ev)
+}
+
+// iterget <h2> <h> <k>: h2 := the k-th element handed out by h.Iter() (the mutable, index-based
+// iterator: its elements are hooked sub-views like those of Get)
+func hIterGet(st *State, a []string) string {
+	hd := st.h(a[1])
+	k, _ := strconv.ParseUint(a[2], 10, 64)
+	var it view.ElemIter
+	switch x := hd.vw.(type) {
+	case *view.BasicVectorView:
+		it = x.Iter()
+	case *view.BasicListView:
+		it = x.Iter()
+	case *view.ComplexVectorView:
+		it = x.Iter()
+	case *view.ComplexListView:
+		it = x.Iter()
+	case *view.ContainerView:
+		it = x.Iter()
+	default:
+		return "err"
+	}
+	var el view.View
+	for i := uint64(0); i <= k; i++ {
+		v, ok, err := it.Next()
+		if err != nil || !ok {
+			return "err"
+		}
+		el = v
+	}
+	et := elemTy(hd.t, k)
+	if et == nil {
+		return "err"
+	}
+	st.objs[a[0]] = &handle{t: et, vw: el}
+	return "ok"
+}
+
+// rehash <name>: re-initialise the zero-hash table with the named pair hash (same level count).
+// Existing trees must not change.
+func hRehash(st *State, a []string) string {
+	tree.InitZeroHashes(hashByName(a[0]), 64)
+	currentHash = a[0]
+	return "ok"
+}
+
+// iter2 <h1> <h2>: two read-only bit/element iterators advanced alternately; prints both sequences
+func hIter2(st *State, a []string) string {
+	type gen func() (string, bool)
+	mk := func(hd *handle) gen {
+		switch x := hd.vw.(type) {
+		case *view.BitVectorView:
+			it := x.ReadonlyIter()
+			return func() (string, bool) {
+				b, ok, err := it.Next()
+				if err != nil {
+					return "E", false
+				}
+				if !ok {
+					return ".", false
+				}
+				if b {
+					return "1", true
+				}
+				return "0", true
+			}
+		case *view.BitListView:
+			it := x.ReadonlyIter()
+			return func() (string, bool) {
+				b, ok, err := it.Next()
+				if err != nil {
+					return "E", false
+				}
+				if !ok {
+					return ".", false
+				}
+				if b {
+					return "1", true
+				}
+				return "0", true
+			}
+		}
+		var it view.ElemIter
+		switch x := hd.vw.(type) {
+		case *view.BasicVectorView:
+			it = x.ReadonlyIter()
+		case *view.BasicListView:
+			it = x.ReadonlyIter()
+		case *view.ComplexVectorView:
+			it = x.ReadonlyIter()
+		case *view.ComplexListView:
+			it = x.ReadonlyIter()
+		case *view.ContainerView:
+			it = x.ReadonlyIter()
+		default:
+			return nil
+		}
+		idx := uint64(0)
+		return func() (string, bool) {
+			v, ok, err := it.Next()
+			if err != nil {
+				return "E", false
+			}
+			if !ok {
+				return ".", false
+			}
+			et := elemTy(hd.t, idx)
+			idx++
+			if et == nil {
+				return "|?", true
+			}
+			ev, err := extract(et, v)
+			if err != nil {
+				return "|X", true
+			}
+			return "| " + ev.String(), true
+		}
+	}
+	g1, g2 := mk(st.h(a[0])), mk(st.h(a[1]))
+	if g1 == nil || g2 == nil {
+		return "err"
+	}
+	var o1, o2 []string
+	d1, d2 := false, false
+	for steps := 0; steps < 200000 && !(d1 && d2); steps++ {
+		if !d1 {
+			s, more := g1()
+			o1 = append(o1, s)
+			d1 = !more
+		}
+		if !d2 {
+			s, more := g2()
+			o2 = append(o2, s)
+			d2 = !more
+		}
+	}
+	return "ok " + strings.Join(o1, " ") + " && " + strings.Join(o2, " ")
 }
